@@ -56,7 +56,7 @@ def handle (j : Json) : E String := do
   let id := (j.getObjVal? "id").toOption.getD .null
   let call ← jStr ((j.getObjVal? "call").toOption.getD .null)
   let A ← jOp ((j.getObjVal? "op").toOption.getD .null)
-  let cl := A.clauses ++ A.diagClauses
+  let cl := A.clauses
   let sq := A.rows == A.cols
   -- "nospec": only the code model is evaluated (large operators: `den` of a product costs n⁴)
   let nospec := match j.getObjVal? "nospec" with
